@@ -121,6 +121,8 @@ type hookState struct {
 // Action is one step of a history. Every action is total: it is legal in every model state.
 type Action struct {
 	// Op: "start", "stop", "wait", "drop" (the proxy closes an established session),
+	// "localdrop" (the PLUGIN side's own socket - the connection the dialer returned or that was
+	// given with WithConnection - is closed underneath the stub),
 	// "restart" (Stop immediately followed by Start), "probe", "bulkstop" / "bulkdrop" (the
 	// plugin issues an UpdateContainers of KB kilobytes from a goroutine of its own - with
 	// Stall the runtime end has stopped reading - and WaitMs after its first bytes left the stub the stub is stopped / the
@@ -138,6 +140,10 @@ type C16Case struct {
 	// "event"; see plugins_test.go): which handler interfaces it implements.
 	Plugin  string   `json:"plugin,omitempty"`
 	Actions []Action `json:"actions"`
+	// GivenConn: the first session's connection is not dialled by the stub but handed to it
+	// with stub.WithConnection (made the same way, by the first action's script, which must be
+	// a healthy Start); later sessions go through the dialer.
+	GivenConn bool `json:"given_conn,omitempty"`
 	// LingerMs: the epilogue's fresh session stays up this long before it is stopped, with
 	// probes at 100, 600 and 1200 ms (those that fit): anything an earlier session left
 	// pending that would tear a later one down shows there.
@@ -358,9 +364,9 @@ func genC16(t *rapid.T) C16Case {
 	if h.err != nil {
 		t.Fatalf("fixture: %v", h.err)
 	}
-	ops := []string{"start", "start", "start", "start", "start", "stop", "stop", "wait", "wait", "drop", "drop", "restart", "restart", "restart", "probe", "probe", "bulkstop", "bulkstop", "bulkdrop"}
+	ops := []string{"start", "start", "start", "start", "start", "stop", "stop", "wait", "wait", "drop", "drop", "localdrop", "localdrop", "restart", "restart", "restart", "probe", "probe", "bulkstop", "bulkstop", "bulkdrop"}
 	if ev.Known(knownD9) {
-		ops = []string{"start", "start", "start", "start", "start", "stop", "stop", "wait", "wait", "drop", "drop", "probe", "probe", "bulkstop", "bulkstop", "bulkdrop"}
+		ops = []string{"start", "start", "start", "start", "start", "stop", "stop", "wait", "wait", "drop", "drop", "localdrop", "localdrop", "probe", "probe", "bulkstop", "bulkstop", "bulkdrop"}
 	}
 	var c C16Case
 	c.Plugin = rapid.SampledFrom([]string{"all", "all", "all", "nocfg", "nocfg", "nosync", "neither", "event", "shutdown", "shutdown"}).Draw(t, "plugin")
@@ -388,7 +394,7 @@ func genC16(t *rapid.T) C16Case {
 				a.Script = genScript(t, h, &est, c.Plugin)
 				up = staysUp(a.Script)
 			}
-		case "stop", "drop", "bulkstop", "bulkdrop":
+		case "stop", "drop", "localdrop", "bulkstop", "bulkdrop":
 			up = false
 		}
 		if a.Op == "bulkstop" || a.Op == "bulkdrop" {
@@ -410,6 +416,9 @@ func genC16(t *rapid.T) C16Case {
 		lingers = []int{0, 0, 0, 0, 0, 700, 700, 1300}
 	}
 	c.LingerMs = rapid.SampledFrom(lingers).Draw(t, "linger_ms")
+	if c.Actions[0].Script.Kind == "healthy" {
+		c.GivenConn = rapid.IntRange(0, 3).Draw(t, "given_conn") == 2
+	}
 	delay := rapid.OneOf(rapid.Just(0), rapid.Just(0), rapid.IntRange(1, 5), rapid.IntRange(5, 30))
 	c.DelayWaitCfg = rapid.SliceOfN(delay, 0, 3).Draw(t, "delay_waitcfg")
 	c.DelayConnClosed = rapid.SliceOfN(delay, 0, 3).Draw(t, "delay_connclosed")
@@ -479,13 +488,14 @@ type exec struct {
 	bulks    []chan error // pending large UpdateContainers calls
 
 	// bookkeeping for evidence
-	hist      []step
-	cur_i     int
-	classes   map[string]bool
-	lenient   map[string]bool
-	faulted   bool // a session ended by fault or back-to-back restart
-	wedged    bool // a stub call did not return: the stub is abandoned
-	unsetSeen bool // a raw runtime that sent RegistrationTimeout <= 0 configured this stub
+	hist        []step
+	cur_i       int
+	classes     map[string]bool
+	lenient     map[string]bool
+	faulted     bool // a session ended by fault or back-to-back restart
+	wedged      bool // a stub call did not return: the stub is abandoned
+	givenUnused bool // the connection given with WithConnection has not been used by a Start yet
+	unsetSeen   bool // a raw runtime that sent RegistrationTimeout <= 0 configured this stub
 	// stillStarted: at the last idle state the stub kept reporting IsStarted for 3 s
 	stillStarted bool
 	stacks       string
@@ -540,9 +550,20 @@ func newExec(c C16Case) (*exec, error) {
 		return nil, nil, nil
 	}
 	x.pl.OnClose = func() { x.closes.Add(1) }
-	st, err := stub.New(pluginObject(c.Plugin, x.pl, func() { x.shutdowns.Add(1) }),
-		stub.WithPluginName(x.pl.Name), stub.WithPluginIdx(x.pl.Idx), stub.WithSocketPath(rt.Socket),
-		stub.WithOnClose(func() { x.closes.Add(1) }), stub.WithDialer(x.dial))
+	opts := []stub.Option{stub.WithPluginName(x.pl.Name), stub.WithPluginIdx(x.pl.Idx), stub.WithSocketPath(rt.Socket),
+		stub.WithOnClose(func() { x.closes.Add(1) }), stub.WithDialer(x.dial)}
+	if c.GivenConn && len(c.Actions) > 0 && c.Actions[0].Op == "start" && c.Actions[0].Script != nil && c.Actions[0].Script.Kind == "healthy" {
+		// the first connection is made now, by the first script, and given to the stub
+		x.pending = c.Actions[0].Script
+		conn, derr := x.dial("")
+		if derr != nil {
+			rt.Stop()
+			return nil, derr
+		}
+		opts = append(opts, stub.WithConnection(conn))
+		x.givenUnused = true
+	}
+	st, err := stub.New(pluginObject(c.Plugin, x.pl, func() { x.shutdowns.Add(1) }), opts...)
 	if err != nil {
 		rt.Stop()
 		return nil, err
@@ -709,6 +730,7 @@ func (x *exec) dial(string) (net.Conn, error) {
 	}
 	l := newLink(n, b, out, o)
 	l.peer = peer
+	l.stubEnd = a
 	x.mu.Lock()
 	x.links = append(x.links, l)
 	x.last = l
@@ -977,6 +999,12 @@ func (x *exec) doStart(sc Script) *failure {
 	connected := len(x.links) - l0 // dials that yielded a connection
 	x.mu.Unlock()
 	dialed := x.dials.Load() - d0
+	if x.givenUnused && dialed == 0 && !wasUp {
+		// this Start used the connection given with WithConnection (made before, by its script)
+		x.givenUnused = false
+		x.classes["given-connection"] = true
+		dialed, connected = 1, 1
+	}
 	desc := sc.Kind
 	if sc.Kind == "unreachable" {
 		how := sc.How
@@ -1745,6 +1773,25 @@ func (x *exec) doAction(a Action) *failure {
 		return x.doWait()
 	case "drop":
 		return x.doDrop()
+	case "localdrop":
+		t0 := time.Now()
+		if !x.up {
+			x.classes["localdrop:idle"] = true
+			x.rec("localdrop", t0, "no session")
+			return nil
+		}
+		x.beforeEnd()
+		lk := x.cur
+		x.classes["localdrop:up"] = true
+		if _, ok := lk.stubEnd.(*net.UnixConn); ok {
+			x.classes["localdrop:unix-socket"] = true
+		}
+		x.estEnded++
+		x.faulted = true
+		x.up, x.cur = false, nil
+		lk.stubEnd.Close()
+		x.rec("localdrop", t0, "")
+		return x.settleIdle("the plugin side's own socket was closed underneath the stub")
 	case "probe":
 		return x.doProbe()
 	case "bulkstop", "bulkdrop":
